@@ -1,7 +1,39 @@
 (* C17 — in-memory indices mirror the cluster; handling waits for the initial index.
-   Only statements here; proofs in Proofs/Index.v and Proofs/Gate.v. *)
+   Only statements here; proofs in Proofs/Index.v, Proofs/IndexEvent.v, Proofs/Gate.v, Proofs/GateObj.v.
+
+   CLAUSE AUDIT (statement + quantifier of properties.jsonl, C17)
+   ---------------------------------------------------------------------------------------------------------------
+   clause                                                   | covered by
+   ---------------------------------------------------------------------------------------------------------------
+   A  after ANY history (adds/edits/deletes, several         | C17_history_refines (full; every event list, every
+      objects, colliding keys, every script of results:      |   handler configuration, scripts = oracle functions;
+      dict/scalar/None/error kinds) each index = the          |   never raises) on top of C17_event_refines (one
+      documented rules applied to the objects seen so far    |   event), C17_refines_spec (one Index), C17_views_exact
+   A1 "latest results" taken literally (identity of values) | C17_refines_latest_partial + C17_refines_latest_refuted
+                                                             |   (Store._replace keeps an ==-equal old value: 1 vs True;
+                                                             |   observation, no finding: == is Python's equality)
+   A2 removed on deletion                                    | rule_of: deleted -> RDrop; C17_deleted_discards
+   A3 removed on filter mismatch                             | rule_of: not matches -> RDrop (C17_event_refines)
+   A4 removed on temporary / permanent error, and stays      | rule_of + C17_invocation_rule (OExc), excluded handlers
+      removed while the handler is excluded                  |   (sleeping / failed / retries exhausted) -> RDrop
+   A5 kept on None result or ignored error                   | rule_of: OKeep -> RKeep; C17_invocation_rule
+   A6 reverse/forward maps consistent, no KeyError, views     | C17_reverse_consistent, C17_no_empty_stores,
+      list each key / each contributing object once          |   C17_never_raises, C17_views_exact
+   B  change handlers, daemons, timers do not start until     | C17_gate (gated worker: the state IS ready: blocker gone,
+      every indexed kind has been listed and indexed once,   |   every indexed kind listed, every object first seen
+      for every interleaving of the initial listings         |   before its kind's LISTED indexed) + C17_gate_any (any
+                                                             |   worker: some earlier state was ready); every trace, every
+                                                             |   worker limit.  C17_gate_partial etc. kept (weaker)
+   B' (liveness side of B: the gate does open, no toggle is   | C17_gate_opens (limit = None or >= live workers per
+      leaked)                                                |   watcher; quiescent watchers) + _refuted pair:
+                                                             |   C17_gate_opens_limited_refuted / C17_gate_stuck_forever
+                                                             |   = known finding F11
+   not covered: deletions in a watch gap (C19); index_resource raising outside the index functions (an exception in
+   a when= filter leaks the object's toggle: observation in the manifest); watcher death/stop before its first LISTED
+   (F10 territory); float values and unhashable keys (outside the model).
+   --------------------------------------------------------------------------------------------------------------- *)
 From Coq Require Import ZArith List String Bool.
-From KV Require Import Base.Json Base.Dicts Model.Index Model.Gate Proofs.Index Proofs.Gate.
+From KV Require Import Base.Json Base.Dicts Model.Index Model.Gate Proofs.Index Proofs.IndexEvent Proofs.Gate Proofs.GateObj.
 Import ListNotations.
 
 Section AnyTypes.
@@ -53,12 +85,69 @@ Section AnyTypes.
     destruct (index_refines_latest oeqb keqb veqb oeqb_spec keqb_spec Hv ops index_empty (WF_empty oeqb keqb) Hf)
       as (idx' & E & _ & G). exists idx'; split; assumption.
   Qed.
+
+  Variable knone : K.            (* the index key None, under which non-Mapping results are stored *)
+
+  (* ONE EVENT through index_resource: for every handler configuration (errors, retries, backoff), every retry memory,
+     every filter outcome and every script of the user's index functions (results being Mappings with unique keys),
+     on well-formed indices: no exception; indices stay well-formed; the index of EVERY index function changes exactly
+     by the documented rule of the event (rule_of / rule_spec: set | keep | drop for THIS object, other objects untouched). *)
+  Theorem C17_event_refines : forall now hs deleted o matches script ixs mem,
+    NoDup (map h_id hs) -> AllWF oeqb keqb ixs -> (forall c, In c hs -> aget String.eqb (h_id c) ixs <> None) ->
+    script_wf script ->
+    exists ixs' mem', index_event oeqb keqb veqb knone now hs deleted o matches script ixs mem = Ok (ixs', mem') /\
+      AllWF oeqb keqb ixs' /\ (forall h, aget String.eqb h ixs' = None <-> aget String.eqb h ixs = None) /\
+      forall c idx, In c hs -> aget String.eqb (h_id c) ixs = Some idx ->
+        exists idx', aget String.eqb (h_id c) ixs' = Some idx' /\
+          eqmap (abs oeqb keqb idx')
+                (rule_spec oeqb keqb veqb knone o (rule_of now c mem deleted matches script) (abs oeqb keqb idx)).
+  Proof. exact (event_refines oeqb keqb veqb knone oeqb_spec keqb_spec). Qed.
+
+  (* EVERY HISTORY: from the operator's start state (or any well-formed one) every list of events is processed without
+     an exception and afterwards each index equals the reference map built from the documented rule of every event. *)
+  Theorem C17_history_refines : forall hs, NoDup (map h_id hs) ->
+    forall es ixs mems, Forall (fun e => script_wf (e_script e)) es ->
+    AllWF oeqb keqb ixs -> (forall c, In c hs -> aget String.eqb (h_id c) ixs <> None) ->
+    exists ixs' mems', hist_run oeqb keqb veqb knone hs (ixs, mems) es = Ok (ixs', mems') /\
+      AllWF oeqb keqb ixs' /\
+      forall c idx, In c hs -> aget String.eqb (h_id c) ixs = Some idx ->
+        exists idx', aget String.eqb (h_id c) ixs' = Some idx' /\
+          eqmap (abs oeqb keqb idx') (rule_hist oeqb keqb veqb knone hs c mems es (abs oeqb keqb idx)).
+  Proof. exact (history_refines oeqb keqb veqb knone oeqb_spec keqb_spec). Qed.
+
+  (* the start state satisfies the hypotheses of C17_history_refines *)
+  Theorem C17_start_state : forall hs,
+    AllWF oeqb keqb (@init_indexers O K V hs) /\ (forall c, In c hs -> aget String.eqb (h_id c) (@init_indexers O K V hs) <> None).
+  Proof. intro hs; split; [exact (init_allwf oeqb keqb hs) | exact (init_has hs)]. Qed.
+
+  (* what handlers see: no key twice in list(index); index[k] holds exactly one value per contributing object *)
+  Theorem C17_views_exact : forall ops idx', gops_run oeqb keqb veqb index_empty ops = Ok idx' ->
+    NoDup (view_keys idx') /\
+    forall k st, aget keqb k (items idx') = Some st ->
+      NoDup (map fst st) /\ forall o v, In (o, v) st <-> abs oeqb keqb idx' o k = Some v.
+  Proof. exact (views_exact oeqb keqb veqb oeqb_spec keqb_spec). Qed.
 End AnyTypes.
 Print Assumptions C17_reverse_consistent.
 Print Assumptions C17_no_empty_stores.
 Print Assumptions C17_never_raises.
 Print Assumptions C17_refines_spec.
 Print Assumptions C17_refines_latest_partial.
+Print Assumptions C17_event_refines.
+Print Assumptions C17_history_refines.
+Print Assumptions C17_start_state.
+Print Assumptions C17_views_exact.
+
+(* non-vacuity: a concrete history over two index functions and two objects sharing the key "x" *)
+Example C17_history_example :
+  exists ixs' mems', hist_run Nat.eqb ikey_eqb py_eqb KNone ex_hs (init_indexers ex_hs, fun _ => []) ex_history = Ok (ixs', mems') /\
+    rule_hist Nat.eqb ikey_eqb py_eqb KNone ex_hs (mkHcfg "h1" None None 60) (fun _ => []) ex_history (fun _ _ => None) 0%nat (KStr "x") = None /\
+    rule_hist Nat.eqb ikey_eqb py_eqb KNone ex_hs (mkHcfg "h2" (Some ETemporary) (Some 2%Z) 4) (fun _ => []) ex_history (fun _ _ => None) 0%nat KNone = Some (JStr "v") /\
+    mems' 1%nat = [] /\ mems' 0%nat <> [].
+Proof. exact ex_history_runs. Qed.
+Print Assumptions C17_history_example.
+Example C17_history_example_wf : Forall (fun e => script_wf (e_script e)) ex_history /\ NoDup (map h_id ex_hs).
+Proof. exact ex_history_wf. Qed.
+Print Assumptions C17_history_example_wf.
 
 (* ... and false of the faithful model with Python's == (True == 1): after results 1 and then True the index holds 1. *)
 Theorem C17_refines_latest_refuted :
@@ -153,3 +242,63 @@ Example C17_gate_two_slots_refuse_third :
   exists s, grun (Some 2) ginit f11_trace = Some s /\ gstep (Some 2) s (Start 2) = None /\ gstep (Some 3) s (Start 2) <> None.
 Proof. exact gate_start_refused_with_two_slots. Qed.
 Print Assumptions C17_gate_two_slots_refuse_third.
+
+(* ---------------- the full gate theorems (deepening round) ---------------- *)
+
+(* B, gated worker: when its processing reaches process_resource_causes the operator IS ready: the blocker is gone,
+   every indexed kind created so far has been listed, every object first seen before its kind's first LISTED has been
+   indexed (is past index_resource and has dropped its toggle).  Every trace, every worker limit. *)
+Theorem C17_gate : forall lim tr s o s',
+  grun lim ginit tr = Some s -> gstep lim s (Pass o) = Some s' -> gated (ost s o) = true -> Ready s.
+Proof. exact gate_safety. Qed.
+Print Assumptions C17_gate.
+
+(* B, any worker (also those spawned after their watcher gave up the gate): nothing passes before some state of the
+   run was ready *)
+Theorem C17_gate_any : forall lim tr s o s',
+  grun lim ginit tr = Some s -> gstep lim s (Pass o) = Some s' ->
+  exists tr1 tr2 s1, tr = tr1 ++ tr2 /\ grun lim ginit tr1 = Some s1 /\ Ready s1 /\ 0 < nblock s1.
+Proof. exact gate_safety_any. Qed.
+Print Assumptions C17_gate_any.
+
+(* what the ghost flag [early] of Ready means: set at the is_on() check of a new stream iff the kind is indexed and
+   its LISTED has not been handled yet *)
+Theorem C17_early_means : forall lim s r o on s', gstep lim s (SeenCheck r o on) = Some s' ->
+  early (ost s' o) = (windexed (wst s r) && negb (listed s r)).
+Proof. exact early_means. Qed.
+Print Assumptions C17_early_means.
+
+(* B', the true half: from every reachable state with no watcher in the middle of a first event, if every watcher's
+   scheduler has no limit or at least as many slots as it has live workers, the operator's own steps (drop the
+   blocker, reach LISTED, start queued workers, finish indexing) empty the toggle set, and then every worker waiting at
+   the gate passes.  No toggle is ever leaked by the protocol itself. *)
+Theorem C17_gate_opens : forall lim tr s,
+  grun lim ginit tr = Some s -> quiescent s -> limit_ok lim s ->
+  exists tr' s', forallb progress_label tr' = true /\ grun lim s tr' = Some s' /\ is_on s' = true /\
+    (forall o, ph (ost s' o) = PWaiting -> exists s'', gstep lim s' (Pass o) = Some s'').
+Proof. exact gate_opens. Qed.
+Print Assumptions C17_gate_opens.
+
+(* B', the false half for every limit n (F11): n workers of one watcher holding all its slots at the gate while a
+   toggled object of the same watcher is still queued: never ready again, nothing ever passes *)
+Theorem C17_gate_stuck_forever : forall n s, Stuck n s ->
+  forall tr s', grun (Some n) s tr = Some s' -> is_on s' = false /\ forall o, ph (ost s' o) <> PPassed.
+Proof. exact stuck_forever. Qed.
+Print Assumptions C17_gate_stuck_forever.
+
+(* non-vacuity *)
+Example C17_gate_opens_nonvacuous :
+  exists s, grun (Some 3) ginit f11_trace = Some s /\ quiescent s /\ limit_ok (Some 3) s /\ is_on s = false.
+Proof. exact gate_opens_nonvacuous. Qed.
+Print Assumptions C17_gate_opens_nonvacuous.
+Example C17_gate_opens_guard_fails_on_f11 : ~ limit_ok (Some 2) f11_state.
+Proof. exact gate_opens_guard_fails_on_f11. Qed.
+Print Assumptions C17_gate_opens_guard_fails_on_f11.
+Example C17_gate_nonvacuous :
+  exists s s', grun (Some 3) ginit (f11_trace ++ [Start 2; Indexed 2]) = Some s /\
+               gstep (Some 3) s (Pass 2) = Some s' /\ gated (ost s 2) = true /\ early (ost s 2) = true.
+Proof. exact gate_safety_nonvacuous. Qed.
+Print Assumptions C17_gate_nonvacuous.
+Example C17_stuck_nonvacuous : Stuck 2 f11_state.
+Proof. exact f11_stuck. Qed.
+Print Assumptions C17_stuck_nonvacuous.
